@@ -6,7 +6,8 @@ package csv
 
 // rowShape: a current row exists and has exactly as many cells as the header (the csv reader guarantees equal
 // field counts, see the assumed contract of encoding/csv.Reader.Read in /verif/engine/extras.go).
-//@ pure func rowShape(f *File) bool = f != nil && f.currentRow != nil && len(f.currentRow.cells) == len(f.headerContent)
+// The list of missing keys never shares storage with the cells (NextRow resets it to nil; it only grows by append).
+//@ pure func rowShape(f *File) bool = f != nil && f.currentRow != nil && len(f.currentRow.cells) == len(f.headerContent) && (cap(f.currentRow.missingKeys) == 0 || obj(f.currentRow.missingKeys) != obj(f.currentRow.cells))
 
 // headerOK: every index in the header map is a valid index into the header row.
 //@ pure func headerOK(f *File) bool = f != nil && (forall s string :: has(f.headerMap, s) ==> 0 <= f.headerMap[s] && f.headerMap[s] < len(f.headerContent))
@@ -58,7 +59,9 @@ package csv
 //@   ensures [blank-recorded] result == "" ==> len(c.f.currentRow.missingKeys) == old(len(c.f.currentRow.missingKeys)) + 1
 //@   ensures [present-untouched] result != "" ==> c.f.currentRow.missingKeys == old(c.f.currentRow.missingKeys)
 //@   ensures [monotone] len(c.f.currentRow.missingKeys) >= old(len(c.f.currentRow.missingKeys))
-//@   ensures [cells-kept] c.f.currentRow.cells == old(c.f.currentRow.cells)
+//@   ensures [cells-kept] c.f.currentRow.cells == old(c.f.currentRow.cells) && c.f.currentRow == old(c.f.currentRow)
+//@   ensures [cell-content-kept] forall k int :: 0 <= k && k < len(c.f.currentRow.cells) ==> c.f.currentRow.cells[k] == old(c.f.currentRow.cells[k])
+//@   ensures [shape-kept] rowShape(c.f)
 
 //@ func (OptionalColumn).Read
 //@   props C01 C05 C10
